@@ -86,6 +86,8 @@ From Got Require Import WaitClose RaceWaitClose RaceWaitCloseProofs.
 From Got Require Import Wheel RaceWheel RaceWheelProofs.
 From Got Require Import Cache CacheSteps RaceCache RaceCacheProofs.
 From Got Require Import RaceTasks RaceTasksProofs.
+From Got Require Import Atomics RaceAtomics RaceAtomicsProofs.
+From Got Require Import MutexWord RaceMutex RaceMutexProofs.
 Local Open Scope nat_scope.
 
 (* ---- the monitor decides the relational happens-before notion of a data race ---- *)
@@ -603,4 +605,192 @@ Proof.
   - apply (rm_hb_chain _ 0 2 3 8 0 1 (RWrite 1) (RRel 0) (RAcq 0) (RWrite 1) 0); try reflexivity; lia.
   - apply (rm_conflict_intro _ 13 20 1 4 (RWrite 1) (RRead 1) 1); try reflexivity; [discriminate|left; reflexivity].
   - apply (rm_hb_chain _ 13 17 19 20 1 4 (RWrite 1) (RRel 1) (RAcq 1) (RRead 1) 1); try reflexivity; lia.
+Qed.
+
+(* ================================================================== loom.Flag / loom.AddIf64: the labelled step model *)
+
+(* ---- every run of at_step (models/Atomics.v, the machine C17 steps against flag.go / atomic.go)
+   labelled by models/RaceAtomics.v: atomic.LoadInt64 = acquire, successful CompareAndSwapInt64 =
+   acquire-release, failed CAS = acquire, all on ONE sync object (the word).
+   ALL accesses of this component are atomic.  So the content of the theorem is "no plain access at
+   all": c18_atomics_model_all_atomic says every memory event of every run (any initial word, any
+   number of threads, any programs over AddFlag / RemoveFlag / HasFlag / AddIf64 with any predicate,
+   any schedule) is a synchronisation event, and c18_atomics_model_race_free is its corollary (a
+   trace without plain accesses has no conflicting pair).  That the labels are the right ones is tied
+   to the code by: c18_atomics_labels_match_events (the label of a step is a function of the
+   at_event of that step, which C17 compares with the running code at every step of every schedule),
+   c18_atomics_labels_match_sites (yield sites 14..17), c18_atomics_rows_in_table (access-table
+   rows regenerated from flag.go / atomic.go on every run: a plain access instead of a sync/atomic
+   call changes the row), and the -race stress.  c18_atomics_run_projects: the labelled run is the run
+   of the model (same final state, same at_event trace). *)
+Theorem c18_atomics_model_race_free :
+  forall (w : Z) (progs : list (list at_op)) (sched : list nat),
+    ~ hb_race (ra_trace (at_init w progs) sched).
+Proof. exact ra_race_free_init. Qed.
+Print Assumptions c18_atomics_model_race_free.
+
+Theorem c18_atomics_model_all_atomic :
+  forall (w : Z) (progs : list (list at_op)) (sched : list nat),
+    Forall (fun p => rm_sync (snd p)) (ra_trace (at_init w progs) sched).
+Proof. exact ra_all_atomic_init. Qed.
+Print Assumptions c18_atomics_model_all_atomic.
+
+Theorem c18_atomics_run_projects :
+  forall (s : at_state) (sched : list nat),
+    fst (ra_lrun s sched) = at_final s sched /\
+    map fst (snd (ra_lrun s sched)) = at_trace s sched /\
+    ra_flatten (snd (ra_lrun s sched)) = ra_trace s sched.
+Proof. exact ra_lrun_projects'. Qed.
+Print Assumptions c18_atomics_run_projects.
+
+Theorem c18_atomics_labels_match_events :
+  forall (s : at_state) (i : nat),
+    match snd (at_step s i) with
+    | AEInv _ | AENone => ra_events false s i = []
+    | AELoad | AECasFail | AEHas _ _ | AEIfFalse _ => ra_events false s i = [RAcq ra_word]
+    | AEFlagEff _ _ | AEIfAdd _ _ => ra_events false s i = [RAcqRel ra_word]
+    end.
+Proof. exact ra_labels_match_events. Qed.
+Print Assumptions c18_atomics_labels_match_events.
+
+(* a step that changes the word publishes: it is labelled with a release on the word *)
+Theorem c18_atomics_word_change_is_release :
+  forall (s : at_state) (i : nat),
+    at_word (fst (at_step s i)) <> at_word s -> ra_events false s i = [RAcqRel ra_word].
+Proof. exact ra_word_change_is_release. Qed.
+Print Assumptions c18_atomics_word_change_is_release.
+
+Theorem c18_atomics_labels_match_sites :
+  forall (w : Z) (pc : at_pc) (todo : list at_op),
+    match at_site_pc pc with
+    | 14 | 16 => ra_step_pc false w pc todo = [RAcq ra_word]
+    | 15 | 17 => exists ok, ra_step_pc false w pc todo = ra_cas false ok
+    | _ => ra_step_pc false w pc todo = [] \/ ra_step_pc false w pc todo = [RAcq ra_word]
+    end.
+Proof. exact ra_sites. Qed.
+Print Assumptions c18_atomics_labels_match_sites.
+
+Theorem c18_atomics_rows_in_table : ra_rows_in_table = true.
+Proof. exact ra_rows_ok. Qed.
+Print Assumptions c18_atomics_rows_in_table.
+
+(* the converse: AddFlag / RemoveFlag written as a plain read-modify-write (last := *addr; *addr =
+   last | flag) DOES race in the same analysis: two threads, both past their plain read when the
+   first plain write happens *)
+Theorem c18_atomics_plain_refuted :
+  hb_race (ra_trace_gen true (at_init 0%Z [[AtAdd 1%Z]; [AtAdd 2%Z]]) [0; 1; 0; 1; 0; 1]).
+Proof. exact ra_plain_refuted. Qed.
+Print Assumptions c18_atomics_plain_refuted.
+
+(* non-vacuity: AddFlag(1) by thread 0, RemoveFlag(4) by thread 1 whose first CAS fails, HasFlag(1) by
+   thread 2.  The trace has 7 events, none a plain access (so there is no conflicting pair to order);
+   the synchronisation it records is real: thread 0's successful CAS (event 2, a release) is ordered
+   before thread 1's failed CAS (3), thread 1's successful CAS (5) and thread 2's load (6) *)
+Example c18_atomics_model_nonvacuous :
+  let s := at_init 0%Z [[AtAdd 1%Z]; [AtRemove 4%Z]; [AtHas 1%Z]] in
+  let sched := [0;1;0;1;0;1;1;1;2] in
+  let tr := ra_trace s sched in
+  at_word (at_final s sched) = 1%Z /\
+  map snd (at_trace s sched) = [AEInv (AtAdd 1%Z); AEInv (AtRemove 4%Z); AELoad; AELoad; AEFlagEff true 1%Z;
+                                AECasFail; AELoad; AEFlagEff false 4%Z; AEHas 1%Z true] /\
+  tr = [(0, RAcq 0); (1, RAcq 0); (0, RAcqRel 0); (1, RAcq 0); (1, RAcq 0); (1, RAcqRel 0); (2, RAcq 0)] /\
+  hb_hb tr 2 3 /\ hb_hb tr 2 5 /\ hb_hb tr 5 6.
+Proof.
+  cbv zeta. remember (ra_trace _ _) as tr eqn:E. vm_compute in E. subst tr.
+  split; [vm_compute; reflexivity|]. split; [vm_compute; reflexivity|]. split; [reflexivity|].
+  split; [|split].
+  - apply (rm_hb_sw _ 2 3 0 1 (RAcqRel 0) (RAcq 0) 0); try reflexivity; lia.
+  - apply (rm_hb_sw _ 2 5 0 1 (RAcqRel 0) (RAcqRel 0) 0); try reflexivity; lia.
+  - apply (rm_hb_sw _ 5 6 1 2 (RAcqRel 0) (RAcq 0) 0); try reflexivity; lia.
+Qed.
+
+(* ================================================================== loom.Mutex: the labelled step model *)
+
+(* ---- every run of mx_step (models/MutexWord.v part 2: Lock / lockSlow / Unlock / unlockSlow of
+   sync.Mutex re-modelled from the Go 1.23 source + loom's TryLock, whose three accesses C17 steps
+   against loom/mutex.go) labelled by models/RaceMutex.v, with observers (RmxObs = Count / IsLocked /
+   IsWoken / IsStarving: one atomic load, at any time) and client accesses (RmxAcc i w x: thread i
+   reads / writes location x, executed only while the model says thread i holds the mutex).
+   (1) The state word: Lock, Unlock, TryLock, Count, IsLocked touch it only through sync/atomic
+   (c18_mutex_word_all_atomic: without client accesses every event of every run is a synchronisation
+   event - "no plain access at all"; the plain loads inside package sync are not labelled, see
+   RaceMutex.v).  (2) c18_mutex_model_race_free: data accessed only while holding a loom.Mutex -
+   acquired by Lock's fast path, lockSlow's CAS, the starvation hand-off, or TryLock's first or second
+   CAS - never races, for any number of threads, any programs, any spin / starvation oracles, any
+   schedule, with observers running: TryLock's CAS really acquires what Unlock's AddInt32 released.
+   It rests on mutual exclusion (C17: c17_mutex_exclusion, the invariant mx_inv). *)
+Theorem c18_mutex_model_race_free :
+  forall (progs : list (list mx_op)) (sched : list rmx_item),
+    ~ hb_race (rmx_trace (mx_init progs) sched).
+Proof. exact rmx_race_free. Qed.
+Print Assumptions c18_mutex_model_race_free.
+
+Theorem c18_mutex_model_monitor :
+  forall (progs : list (list mx_op)) (sched : list rmx_item),
+    rc_raced (rc_run (length progs) (rmx_trace (mx_init progs) sched)) = false
+    /\ hb_wf (length progs) (rmx_trace (mx_init progs) sched).
+Proof. exact rmx_monitor_spec. Qed.
+Print Assumptions c18_mutex_model_monitor.
+
+Theorem c18_mutex_word_all_atomic :
+  forall (progs : list (list mx_op)) (sched : list rmx_item),
+    Forall (fun it => match it with RmxAcc _ _ _ => False | _ => True end) sched ->
+    Forall (fun p => rm_sync (snd p)) (rmx_trace (mx_init progs) sched).
+Proof. exact rmx_word_all_atomic_init. Qed.
+Print Assumptions c18_mutex_word_all_atomic.
+
+(* the labelled run is the run of the model: its states are those of mx_step on the RmxRun items *)
+Theorem c18_mutex_run_projects :
+  forall (s : mx_state) (sched : list rmx_item), rmx_final s sched = mx_final s (rmx_base sched).
+Proof. exact rmx_projects'. Qed.
+Print Assumptions c18_mutex_run_projects.
+
+Theorem c18_mutex_labels_match_sites :
+  forall (r : mx_w) (th : mx_thread),
+    match xpc th with
+    | XT1 => rmx_label false r th = [rmx_cas (mx_is_zero r)]
+    | XT2 => rmx_label false r th = [RAcq rmx_word]
+    | XT3 old => rmx_label false r th = [rmx_cas (mx_w_eqb r old)]
+    | _ => True
+    end.
+Proof. exact rmx_sites. Qed.
+Print Assumptions c18_mutex_labels_match_sites.
+
+Theorem c18_mutex_rows_in_table : rmx_rows_in_table = true.
+Proof. exact rmx_rows_ok. Qed.
+Print Assumptions c18_mutex_rows_in_table.
+
+(* TryLock with plain accesses of the word instead of sync/atomic calls races *)
+Theorem c18_mutex_trylock_plain_refuted :
+  hb_race (rmx_trace_gen true (mx_init [[XTryLock]; [XTryLock]]) [RmxRun 0; RmxRun 1; RmxRun 0; RmxRun 1]).
+Proof. exact rmx_trylock_plain_refuted. Qed.
+Print Assumptions c18_mutex_trylock_plain_refuted.
+
+(* non-vacuity: thread 0 Lock, write x, Unlock; thread 1 TryLock (fails: CAS1 and the load see the
+   locked word), its access is refused, TryLock again (CAS1 succeeds), read x, write x, Unlock;
+   thread 2 observes twice (Count / IsLocked), then Lock and write x.
+   1 = thread 0's write, read by thread 1 at 7 (Unlock's AddInt32 5 -> TryLock's CAS 6);
+   8 = thread 1's write, against thread 2's write at 12 (Unlock 10 -> Lock 11);
+   1 against 12 directly (5 -> 11) *)
+Example c18_mutex_model_nonvacuous :
+  let s := mx_init [[XLock 0 0; XUnlock]; [XTryLock; XTryLock; XUnlock]; [XLock 0 0]] in
+  let sched := [RmxRun 0; RmxRun 0; RmxAcc 0 true 7; RmxRun 1; RmxRun 1; RmxRun 1; RmxAcc 1 false 7; RmxObs 2;
+                RmxRun 0; RmxRun 0; RmxRun 1; RmxRun 1; RmxAcc 1 false 7; RmxAcc 1 true 7; RmxObs 2;
+                RmxRun 1; RmxRun 1; RmxRun 2; RmxRun 2; RmxAcc 2 true 7] in
+  let tr := rmx_trace s sched in
+  map snd (mx_trace s (rmx_base sched)) =
+    [XEInv; XEAcq 0; XEInv; XEInt; XETryFail; XEInv; XEUnlocked; XEInv; XEAcq 3; XEInv; XEUnlocked; XEInv; XEAcq 0] /\
+  length tr = 13 /\
+  hb_conflict tr 1 7 /\ hb_hb tr 1 7 /\
+  hb_conflict tr 8 12 /\ hb_hb tr 8 12 /\
+  hb_conflict tr 1 12 /\ hb_hb tr 1 12.
+Proof.
+  cbv zeta. remember (rmx_trace _ _) as tr eqn:E. vm_compute in E. subst tr.
+  split; [vm_compute; reflexivity|]. split; [reflexivity|]. repeat split.
+  - apply (rm_conflict_intro _ 1 7 0 1 (RWrite 8) (RRead 8) 8); try reflexivity; [discriminate|left; reflexivity].
+  - apply (rm_hb_chain _ 1 5 6 7 0 1 (RWrite 8) (RAcqRel 0) (RAcqRel 0) (RRead 8) 0); try reflexivity; lia.
+  - apply (rm_conflict_intro _ 8 12 1 2 (RWrite 8) (RWrite 8) 8); try reflexivity; [discriminate|left; reflexivity].
+  - apply (rm_hb_chain _ 8 10 11 12 1 2 (RWrite 8) (RAcqRel 0) (RAcqRel 0) (RWrite 8) 0); try reflexivity; lia.
+  - apply (rm_conflict_intro _ 1 12 0 2 (RWrite 8) (RWrite 8) 8); try reflexivity; [discriminate|left; reflexivity].
+  - apply (rm_hb_chain _ 1 5 11 12 0 2 (RWrite 8) (RAcqRel 0) (RAcqRel 0) (RWrite 8) 0); try reflexivity; lia.
 Qed.
